@@ -628,6 +628,13 @@ func (c *Ctx) contractEnv(ct *Contract, sig *types.Signature, recvIface types.Ty
 		}
 		i++
 	}
+	if ct != nil && ct == c.unitContract {
+		for n, sv := range c.unitFree {
+			if _, taken := e.vars[n]; !taken {
+				e.vars[n] = sv
+			}
+		}
+	}
 	return e
 }
 
